@@ -180,6 +180,10 @@ structure DState where
   mon : Monitors.MonState := {}
   prop : String
   wrong : Bool
+  /-- model and implementation already disagreed in this case: the first disagreement was
+      reported; the model keeps stepping so that the monitors can still look for a concrete
+      property violation in the implementation's outputs (reported with a marker) -/
+  diverged : Bool := false
 
 def splitOut (out : String) : String × List String :=
   match out.splitOn " ; " with
@@ -196,7 +200,7 @@ def handler (prop : String) (wrong : Bool) : Handler DState where
       | some mc, some ss, some sc, some mo =>
         let cfg : Config := { maxConnections := mc, maxSegmentSize := ss, maxSegmentCount := sc,
                               maxOutgoingPacketCount := mo, strategy := parseStrategy strat }
-        ({ st with m := .live (init cfg), mon := Monitors.MonState.init cfg }, .ok)
+        ({ st with m := .live (init cfg), mon := Monitors.MonState.init cfg, diverged := false }, .ok)
       | _, _, _, _ => (st, .bad "new")
     | ["note", _] => (st, .ok)
     | ["snap"] =>
@@ -212,7 +216,7 @@ def handler (prop : String) (wrong : Bool) : Handler DState where
       match st.m with
       | .live _ =>
         match Monitors.atIdle st.prop st.mon with
-        | some (tag, d) => (st, .monitorFail tag d)
+        | some (tag, d) => (st, .monitorFail tag (if st.diverged then d ++ " [found after the model/implementation divergence reported earlier in this case]" else d))
         | none => (st, .ok)
       | _ => (st, .ok)
     | _ =>
@@ -244,20 +248,25 @@ def handler (prop : String) (wrong : Bool) : Handler DState where
             | .error (.panic msg) =>
               if implPanic then
                 ({ st with m := .dead }, match mv with | some (t, d) => .monitorFail t d | none => .ok)
-              else ({ st with m := .dead }, .diverge s!"PANIC {msg}" res)
-            | .error (.badChoice msg) => ({ st with m := .dead }, .diverge s!"bad-choice {msg}" out)
+              else ({ st with m := .dead }, if st.diverged then .ok else .diverge s!"PANIC {msg}" res)
+            | .error (.badChoice msg) => ({ st with m := .dead }, if st.diverged then .ok else .diverge s!"bad-choice {msg}" out)
             | .ok (s', mo) =>
               let mo := if st.wrong then
                   (match mo with | .drained t ns => Out.drained t ns.reverse | x => x) else mo
               let ms := showOut mo
+              let mark (v : Option (String × String)) : Verdict := match v with
+                | some (t, d) => .monitorFail t (if st.diverged then d ++ " [found after the model/implementation divergence reported earlier in this case]" else d)
+                | none => .ok
               if implPanic then
                 ({ st with m := .dead },
-                 match mv with | some (t, d) => .monitorFail t d | none => .diverge ms res)
-              else if !s'.oracle.isEmpty then ({ st with m := .dead }, .diverge "unused-choices" out)
+                 match mv with | some _ => mark mv | none => if st.diverged then .ok else .diverge ms res)
+              else if !s'.oracle.isEmpty then
+                ({ st with m := .dead }, if st.diverged then .ok else .diverge "unused-choices" out)
               else if ms ≠ res then
-                ({ st with m := .dead },
-                 match mv with | some (t, d) => .monitorFail t d | none => .diverge ms res)
+                -- keep going on the model's own state; later disagreements are not reported again
+                ({ st with m := .live s', diverged := true },
+                 match mv with | some _ => mark mv | none => if st.diverged then .ok else .diverge ms res)
               else
-                ({ st with m := .live s' }, match mv with | some (t, d) => .monitorFail t d | none => .ok)
+                ({ st with m := .live s' }, mark mv)
 
 end Driver.RouterD
